@@ -728,6 +728,12 @@ class ClassTok:
     def __init__(self, name):
         self.name = name
 
+    def __eq__(self, other):
+        return isinstance(other, ClassTok) and other.name == self.name
+
+    def __hash__(self):
+        return hash(("ClassTok", self.name))
+
 
 class _Raised(Exception):
     """The interpreted function raised."""
@@ -824,7 +830,7 @@ def program_classes(prog, names) -> Dict[str, Dict[str, object]]:
 
 def mini_exec(fn: ast.FunctionDef, args: Dict[str, object], budget: int = 2000, methods: Optional[Dict[str, ast.FunctionDef]] = None, _depth: int = 0,
               functions: Optional[Dict[str, ast.FunctionDef]] = None, ctors: Optional[Set[str]] = None,
-              classes: Optional[Dict[str, Dict[str, ast.FunctionDef]]] = None):
+              classes: Optional[Dict[str, Dict[str, ast.FunctionDef]]] = None, consts: Optional[Dict[str, ast.expr]] = None):
     """Runs a small, side-effect-free function of the analysed program on *sample* arguments with the analyser's own
     interpreter (assignments to names, if / for / while-free loops over lists and ranges, return, and the expression forms
     of _PathEval plus range / min / max / zip / enumerate / all / any).  Anything else raises _PathEval.Unknown."""
@@ -863,7 +869,7 @@ def mini_exec(fn: ast.FunctionDef, args: Dict[str, object], budget: int = 2000, 
         steps[0] += 5
         if steps[0] > budget:
             raise _PathEval.Unknown("too many steps")
-        return mini_exec(m_, cargs_, budget, methods, _depth + 1, functions, ctors, classes)
+        return mini_exec(m_, cargs_, budget, methods, _depth + 1, functions, ctors, classes, consts)
 
     def obj_text(v_):
         """str() of a sample object of a modelled class: its own __str__ / __repr__."""
@@ -871,7 +877,7 @@ def mini_exec(fn: ast.FunctionDef, args: Dict[str, object], budget: int = 2000, 
             for special_ in ("__str__", "__repr__"):
                 m2_ = classes[v_["__kind__"]].get(special_)
                 if isinstance(m2_, ast.FunctionDef):
-                    return mini_exec(m2_, {m2_.args.args[0].arg: v_}, budget, methods, _depth + 1, functions, ctors, classes)
+                    return mini_exec(m2_, {m2_.args.args[0].arg: v_}, budget, methods, _depth + 1, functions, ctors, classes, consts)
         raise _PathEval.Unknown("str() of a sample object")
 
     def ev(e):
@@ -939,7 +945,7 @@ def mini_exec(fn: ast.FunctionDef, args: Dict[str, object], budget: int = 2000, 
                 for k in e.keywords:
                     if k.arg:
                         call_args[k.arg] = ev(k.value)
-                return mini_exec(m, call_args, budget, methods, _depth + 1, functions, ctors, classes)
+                return mini_exec(m, call_args, budget, methods, _depth + 1, functions, ctors, classes, consts)
         if isinstance(e, ast.Call) and isinstance(e.func, ast.Name) and functions and e.func.id in functions and _depth < 12:
             # a function of the program called by name (a nested helper sees the variables of the function around it)
             g_ = functions[e.func.id]
@@ -958,7 +964,7 @@ def mini_exec(fn: ast.FunctionDef, args: Dict[str, object], budget: int = 2000, 
             steps[0] += 5
             if steps[0] > budget:
                 raise _PathEval.Unknown("too many steps")
-            return mini_exec(g_, call_env, budget, methods, _depth + 1, functions, ctors, classes)
+            return mini_exec(g_, call_env, budget, methods, _depth + 1, functions, ctors, classes, consts)
         if isinstance(e, ast.Call) and ctors and (e.func.attr if isinstance(e.func, ast.Attribute) else getattr(e.func, "id", None)) in ctors:
             # building a node of the program: recorded, not executed
             leaf = e.func.attr if isinstance(e.func, ast.Attribute) else e.func.id
@@ -1218,10 +1224,10 @@ def mini_exec(fn: ast.FunctionDef, args: Dict[str, object], budget: int = 2000, 
                     return vals[0][special]() if e.func.id == "len" else bool(vals[0][special]())
                 if classes and vals[0].get("__kind__") in classes and isinstance(classes[vals[0]["__kind__"]].get(special), ast.FunctionDef):
                     m2_ = classes[vals[0]["__kind__"]][special]
-                    r_ = mini_exec(m2_, {m2_.args.args[0].arg: vals[0]}, budget, methods, _depth + 1, functions, ctors, classes)
+                    r_ = mini_exec(m2_, {m2_.args.args[0].arg: vals[0]}, budget, methods, _depth + 1, functions, ctors, classes, consts)
                     return r_ if e.func.id == "len" else bool(r_)
                 if methods and special in methods and vals[0].get("__kind__"):
-                    r_ = mini_exec(methods[special], {methods[special].args.args[0].arg: vals[0]}, budget, methods, _depth + 1, functions, ctors, classes)
+                    r_ = mini_exec(methods[special], {methods[special].args.args[0].arg: vals[0]}, budget, methods, _depth + 1, functions, ctors, classes, consts)
                     return r_ if e.func.id == "len" else bool(r_)
                 if e.func.id == "len":
                     raise _PathEval.Unknown("len() of a sample object")
@@ -1299,6 +1305,8 @@ def mini_exec(fn: ast.FunctionDef, args: Dict[str, object], budget: int = 2000, 
                 return env[e.id]
             if ctors and e.id in ctors:
                 return ClassTok(e.id)
+            if consts and e.id in consts and _depth < 14:
+                return ev(consts[e.id])                 # a module-level constant of the program
             if e.id in ("True", "False", "None"):
                 return {"True": True, "False": False, "None": None}[e.id]
             raise _PathEval.Unknown(f"name {e.id}")
@@ -1419,7 +1427,7 @@ def mini_exec(fn: ast.FunctionDef, args: Dict[str, object], budget: int = 2000, 
                     for p_, d_ in zip(ps_[len(ps_) - len(_g.args.defaults):], _g.args.defaults):
                         if ps_.index(p_) >= len(vals):
                             call_env[p_] = ev(d_)
-                    return mini_exec(_g, call_env, budget, methods, _depth + 1, functions, ctors, classes)
+                    return mini_exec(_g, call_env, budget, methods, _depth + 1, functions, ctors, classes, consts)
                 env[st.name] = local_fn
             elif isinstance(st, ast.AugAssign) and isinstance(st.target, ast.Subscript) and isinstance(st.op, (ast.Add, ast.Sub)) and not isinstance(st.target.slice, ast.Slice):
                 base = ev(st.target.value)
@@ -1434,6 +1442,10 @@ def mini_exec(fn: ast.FunctionDef, args: Dict[str, object], budget: int = 2000, 
                     cur.extend(ev(st.value))
                 else:
                     base[key_] = cur + ev(st.value) if isinstance(st.op, ast.Add) else cur - ev(st.value)
+            elif isinstance(st, ast.Expr) and isinstance(st.value, ast.Yield):
+                yielded.append(ev(st.value.value) if st.value.value is not None else None)        # a generator function is run to its end
+            elif isinstance(st, ast.Expr) and isinstance(st.value, ast.YieldFrom):
+                yielded.extend(ev(st.value.value))
             elif isinstance(st, ast.Expr) and isinstance(st.value, ast.Call):
                 ev(st.value)
             elif isinstance(st, ast.While):
@@ -1473,11 +1485,13 @@ def mini_exec(fn: ast.FunctionDef, args: Dict[str, object], budget: int = 2000, 
                 continue
             else:
                 raise _PathEval.Unknown(f"statement {type(st).__name__} `{unparse(st)[:60]}`")
+    yielded: List[object] = []
+    is_gen = any(isinstance(y_, (ast.Yield, ast.YieldFrom)) for y_ in walk_no_nested(fn))
     try:
         run(fn.body)
     except _Return as r:
-        return r.value
-    return None
+        return yielded if is_gen else r.value
+    return yielded if is_gen else None
 
 
 def rule_package_paths(ctx, rep: Report, rid="T3", min_sites=4):
